@@ -139,6 +139,15 @@ class _AffTok:
     def __pyvc_eq__(self, interp, other):
         return other is self
 
+    def __pyvc_copy__(self):
+        return self
+
+    def strip(self, *a):
+        return self
+
+    def __pyvc_str__(self, interp):
+        return self
+
 
 def _install_transform_tokens(H):
     if H.mode != "sym":
